@@ -289,6 +289,14 @@ def py_tag_parse() -> None:
         raise TranslateError(f"_is_py_version_compatible: tests changed: {tests}")
 
 
+def wheel_version_unescape() -> None:
+    """_wheel_filename_to_candidate parses the version part with '_' read back as '-' (PEP 427 escaping)"""
+    fn = T.func(T.parse(REPO_PY), "_wheel_filename_to_candidate")
+    hits = [_src(n.value) for n in ast.walk(fn) if isinstance(n, ast.Assign) and [_src(t) for t in n.targets] == ["version"]]
+    if hits != ["parse_version(data_parts[1].replace('_', '-'))"]:
+        raise TranslateError(f"_wheel_filename_to_candidate: version parsing changed: {hits}")
+
+
 def glibc_cmp_strict() -> bool:
     """manylinux_tag_is_compatible_with_this_system: `if (sys_major, sys_minor) < (tag_major, tag_minor): return False`
     -- a wheel built for exactly the host's glibc is accepted iff the comparison is strict"""
@@ -329,6 +337,7 @@ def gen_c03_consts() -> str:
     sd = sdist_extra_default()
     py_tag_parse()
     strict = glibc_cmp_strict()
+    wheel_version_unescape()
     b = T.HEADER
     b += "(* C03: read from req_compile/repos/repository.py and req_compile/utils.py *)\n"
     b += "Inductive field := FVersion | FExtra | FType | FTag | FFile.\n"
